@@ -277,7 +277,7 @@ class C02(Check):
                 return s + f"m = map[str, {ty1}]\nm[\"k\"] = src\nr = m[\"k\"]\nprint typeof r\nprint r\n", 1
             if pos == "field":
                 return s + (f"class H {{\n\tf: {ty1}\n\tconstructor(self, v: {ty1}) {{\n\t\tself.f = v\n\t}}\n}}\n" +
-                            decl("init", t1).replace("const ", "") + "h = H(init)\nh.f = src\nprint typeof h.f\nprint h.f\n"), 1
+                            decl("init", t1).replace("const ", "") + "h = H(init)\nh.f = src\nprint typeof h.f\nprint h.f\n" + use.format(v="h.f")), 1
             if pos == "or":
                 return s + decl("x", t1) + "r = (x) or src\nprint typeof r\nprint r\n", 1
         if k == "tree":
